@@ -244,7 +244,8 @@ func checkCaseWith(t hx.TB, test, x string, pl plan, mk func() *ir.Module) {
 		hx.Discard("module_source_fails(judged_elsewhere)")
 		return
 	}
-	// sequential expectations, from fresh copies: one never printed, one printed once
+	// sequential expectations, from fresh copies: one never printed, one printed once (evaluated after
+	// the concurrent phase, see below)
 	expect := func(o op) map[string]bool {
 		out := map[string]bool{}
 		for _, printed := range []bool{false, true} {
@@ -271,19 +272,6 @@ func checkCaseWith(t hx.TB, test, x string, pl plan, mk func() *ir.Module) {
 			}
 		}
 		return out
-	}
-	want := map[string]map[string]bool{}
-	for _, ops := range pl.Ops {
-		for _, o := range ops {
-			if _, ok := want[o.String()]; !ok {
-				e := expect(o)
-				if e == nil {
-					hx.Discard("sequential_call_panics(judged_elsewhere)")
-					return
-				}
-				want[o.String()] = e
-			}
-		}
 	}
 	if pl.Printed {
 		if _, pp := lx.Print(shared); pp != nil {
@@ -316,6 +304,21 @@ func checkCaseWith(t hx.TB, test, x string, pl plan, mk func() *ir.Module) {
 	if rep := hx.RaceReport(); rep != "" {
 		hx.Fail(t, test, "ll", caseText, "the race detector reports a data race while %d goroutines print the same module (start state: printed once = %v):\n%s", len(pl.Ops), pl.Printed, rep)
 	}
+	// The sequential expectations are computed only now, from fresh copies: a process-wide cache that the
+	// printer fills lazily must not have been warmed by a sequential print before the concurrent phase.
+	want := map[string]map[string]bool{}
+	for _, ops := range pl.Ops {
+		for _, o := range ops {
+			if _, ok := want[o.String()]; !ok {
+				e := expect(o)
+				if e == nil {
+					hx.Discard("sequential_call_panics(judged_elsewhere)")
+					return
+				}
+				want[o.String()] = e
+			}
+		}
+	}
 	for g, rs := range results {
 		for _, r := range rs {
 			if r.p != nil {
@@ -346,6 +349,9 @@ func genText(rt *rapid.T) string {
 	cfg := gen.DefaultCfg()
 	cfg.UnnamedBias = 7
 	cfg.Off = map[string]bool{"retattr-align": true, "freeze-metadata": true}
+	// one case in three carries a debug-info graph (flag sets, enumerated fields, inline nodes: code
+	// paths of the printer that the plain cases never enter)
+	cfg.DebugInfo = rapid.IntRange(0, 2).Draw(rt, "debuginfo") == 0
 	m, _ := gen.Module(rt, cfg)
 	return m.TextNoisy(gen.DrawNoise(rt))
 }
